@@ -436,7 +436,11 @@ def _maskcells(m, n):
 class MaskedArray(ndarray):
     __array_priority__ = 15
 
-    def __init__(self, data, mask=nomask, fill_value=None, hard=False):
+    def __init__(self, data, mask=nomask, fill_value=None, hard=False, dtype=None, copy=False, **kw):
+        if not (type(data) is ndarray and dtype is None and not copy
+                and (mask is None or (type(mask) is ndarray and mask.kind == 'b' and mask.shape == data.shape))):
+            tmp = _ma_array(data, dtype=dtype, copy=copy, mask=mask, fill_value=fill_value)      # public-style construction
+            data, mask, fill_value = ndarray(tmp.buf, tmp.idx, tmp.kind), tmp._mask, tmp._fill
         ndarray.__init__(self, data.buf, data.idx, data.kind)
         if mask is not None:
             assert mask.shape == data.shape, (mask.shape, data.shape)
@@ -903,13 +907,15 @@ def _is_masked(x):
 def _ma_array(data, dtype=None, copy=False, mask=nomask, fill_value=None, **kw):
     k = _kind_of_dtype(dtype)
     own = None
+    share = (not copy) and isinstance(data, ndarray) and (k is None or k == data.kind)
     if isinstance(data, MaskedArray):
-        d = array(data.data, dtype=dtype)
-        own = None if data._mask is None else data._mask.copy()
+        # copy=False (the default): the new array views the same data AND the same mask array, as numpy does
+        d = ndarray(data.buf, data.idx, data.kind) if share else array(data.data, dtype=dtype)
+        own = None if data._mask is None else (data._mask if share else data._mask.copy())
         if fill_value is None:
             fill_value = data._fill
     elif isinstance(data, ndarray):
-        d = array(data, dtype=dtype)
+        d = ndarray(data.buf, data.idx, data.kind) if share else array(data, dtype=dtype)
     elif isinstance(data, (list, tuple)) and data and all(isinstance(o, ndarray) for o in data):
         d = array(list(data), dtype=dtype)
         if any(isinstance(o, MaskedArray) and o._mask is not None for o in data):
@@ -944,12 +950,12 @@ def _ma_array(data, dtype=None, copy=False, mask=nomask, fill_value=None, **kw):
     return MaskedArray(d, m, fill_value)
 
 
-def _ma_asarray(x, dtype=None):
+def _ma_asarray(x, dtype=None, order=None):
     if isinstance(x, MaskedArray) and dtype is None:
         return x
     if isinstance(x, ndarray) and dtype is None:
         return MaskedArray(x, None)
-    return _ma_array(x, dtype=dtype)
+    return _ma_array(x, dtype=dtype, copy=False)
 
 
 def _ma_empty(shape, dtype=None):
@@ -1031,6 +1037,8 @@ ma.getdata = lambda a: a.data if isinstance(a, ndarray) else a
 
 
 def install():
+    from . import symnp_ext
+    symnp_ext.apply()
     me = sys.modules[__name__]
     sys.modules['numpy'] = me
     sys.modules['numpy.ma'] = ma
